@@ -411,6 +411,37 @@ def run_errors(ctx):
                 ctx.violation('C19:error:graded_instead_of_refused:' + kind, 'returned %r' % (out.value,), wit)
             elif not lib.err_family(out.exc).startswith(fam):
                 ctx.violation('C19:error:class:' + kind, 'expected %s, got %r' % (fam, out.exc), wit)
+    # names of default functions stay reserved as summation variables also when a blacklist / whitelist excludes them from use
+    for restr in ({'blacklist': ['sin']}, {'whitelist': ['cos']}, {'whitelist': [None]}, {'blacklist': ['exp', 'sin']}):
+        for var in ('sin', 'exp', 'cos'):
+            g = SumGrader(answers={'lower': '1', 'upper': '5', 'summand': 'n^2', 'summation_variable': 'n'}, samples=2, tolerance=1e-9, **restr)
+            sub = ['1', '5', var + '^2', var]
+            out = lib.call(ctx, g, None, list(sub))
+            ctx.ev()
+            ctx.count('student_error_cases')
+            wit = {'submission': sub, 'kind': 'variable_clash', 'restriction': restr, 'outcome': out.brief()}
+            ctx.nontrivial(wit)
+            if out.returned:
+                ctx.violation('C19:error:graded_instead_of_refused:variable_clash:restricted_function', 'returned %r' % (out.value,), wit)
+            elif not lib.err_family(out.exc).startswith('StudentFacing'):
+                ctx.violation('C19:error:class:variable_clash', repr(out.exc), wit)
+    # what one grader's limits contained says nothing about the same summand text in another grader
+    for i in range(ctx.pick(6, 60)):
+        tag = 70000 + i * ctx.nshards + ctx.shard
+        summand = 'n^2+%d' % tag
+        ans = {'lower': '1', 'upper': '5', 'summand': summand, 'summation_variable': 'n'}
+        g1 = SumGrader(answers=ans, samples=2, tolerance=1e-9, user_functions={'uf': lambda t: t * 1.0})
+        first = lib.call(ctx, g1, None, [rng.choice(['uf(1)', 'abs(0-1)', 'floor(1.5)']), rng.choice(['5', 'uf(5)', 'ceil(4.5)']), summand, 'n'])
+        g2 = SumGrader(answers=ans, samples=2, tolerance=1e-9, **rng.choice([{}, {'blacklist': ['abs', 'floor', 'ceil']}, {'whitelist': [None]}]))
+        out = lib.call(ctx, g2, None, ['1', '5', summand, 'n'])
+        ctx.ev()
+        ctx.count('history_cases')
+        wit = {'summand': summand, 'earlier_grader_outcome': first.brief(), 'outcome': out.brief()}
+        ctx.nontrivial(['sumhist', tag])
+        if not first.returned or first.value['ok'] is not True:
+            ctx.violation('C19:history:first_call', 'limits written with functions: %r' % (first.brief(),), wit)
+        if not out.returned or out.value['ok'] is not True:
+            ctx.violation('C19:history:same_summand_in_another_grader', 'the author\'s own sum was not accepted: %r' % (out.brief(),), wit)
     # author failures are configuration errors
     author_bad = [
         {'lower': '1.5', 'upper': '5', 'summand': 'n', 'summation_variable': 'n'},
